@@ -33,6 +33,9 @@ CHECKS = {
  "C10": ("Round-trip testing: Hypothesis-generated networks of three classes through every converter pair; inverse-function oracle on incidences, labels, order, attributes and class",
          "Exploration with round-trip oracles: hyperedge list/dict, bipartite edge list, labelled/positional incidence matrix, bipartite graph (index maps, shuffled vertex insertion order and edge orientation), dataframe, standard hypergraph dict, HIF dict, and the class-to-class constructors, each compared on exactly what the statement promises for that representation.",
          "Standard-dict casts exercised on homogeneous int or str labels; hyperedge-list round trip only without empty edges (see assumptions in the evidence).", "DESIGN.md#C10"),
+ "C11": ("Round-trip testing through real files in a temp dir: Hypothesis-generated networks, delimiters, casts, degenerate matrix shapes and collections; write-then-read oracle",
+         "Exploration with write/read round trips: HIF for three classes (class, isolated nodes, empty edges, tail/head, three attribute levels), JSON for undirected hypergraphs, HIF/JSON collections (list and dict), and the edge-list, bipartite (also dual) and incidence-matrix text formats for every single-character delimiter and the documented casts, including 1x1, 1xm and nx1 matrices.",
+         "Text formats exercised without empty edges and with labels free of whitespace/delimiter/comment characters; only complete write-then-read cycles.", "DESIGN.md#C11"),
  "C05": ("Model-based testing: Hypothesis-generated histories applied step by step to xgi and to reference models transcribed from the docstrings (three classes), metamorphic relations for the degree-preserving moves",
          "Exploration by refinement checking against an executable specification: every op of a generated history is applied to the implementation and to the model (parametric in fresh IDs, prefix semantics for bulk calls) and the observable snapshots are compared after every step, including after rejected calls and their exception types.",
          "The models are my transcription of the documentation; inputs the documentation leaves contradictory are excluded by construction and counted (see assumptions in the evidence).", "DESIGN.md#C05"),
